@@ -4,6 +4,7 @@ import JominiModel.Proofs.BinTapeEq
 import JominiModel.Proofs.BinTapeWf
 import JominiModel.Proofs.BinTapeFaithful
 import JominiModel.Proofs.BinTapeTotal
+import JominiModel.Proofs.BinTapeNested
 /-
 C03 — the binary tape mirrors the token stream; the fast paths are unobservable.
 Only property theorems live here; helper lemmas are in `Proofs/BinTape*.lean`.
@@ -132,19 +133,37 @@ theorem C03_total (opt : Bool) (data : Bytes) :
 example : parse true [0x04, 0x00] = .error .syntax ∧ parse true [0x82] = .ok [] ∧
     parse true [0x82, 0x2d] = .error .eof := ⟨rfl, rfl, rfl⟩
 
-/- **Faithfulness, full statement (not yet proved beyond the flat fragment):**
+/-- **Faithfulness.**  For every well-formed document of the model `Spec/BinTapeDoc.lean` — keys and
+values of all ten binary scalar types, objects and arrays nested to any depth, empty containers,
+rgb blocks (one `Rgb` token directly after `key =`; elsewhere the marker as an id plus an array of
+`U32`), ghost `{}` objects in front of any key, also directly after `{` (only not in front of the
+very first key of the document, which both parsers reject) — and for every binary encoding of its
+scalars, both parsers return exactly `tapeOfBin doc`: the document's keys and values with their
+binary types and payloads, containers classified object / array and delimited by their `End`
+indices, ghost objects dropped; object→array *mixed* containers `{ k = v …  s₁ s₂ … }` (fields, then
+trailing scalars) are an `Object` with one `MixedContainer` marker in front of the first trailing
+scalar.  (Hypothesis `wfDoc`: payload widths, string lengths < 2^16, ids that are not lexemes, a
+mixed container has ≥ 1 field and ≥ 1 trailing scalar, no ghost before the first key of the
+document.) -/
+theorem C03_faithful (doc : Fields) (hw : doc.wfDoc = true) (opt : Bool) :
+    parse opt doc.encode = .ok (tapeOfBin doc) := by
+  cases opt
+  · exact faithful_doc doc hw
+  · rw [C03_fast_eq_reference]; exact faithful_doc doc hw
 
-    theorem C03_faithful (doc : Fields) (hw : doc.wfDoc = true) (hg : no ghost `{}` directly after a `{`) :
-        parse false doc.encode = .ok (tapeOfBin doc)
-
-  for the document model of `Spec/BinTapeDoc.lean` (scalars of all ten binary types as keys and
-  values, rgb blocks, nested objects and arrays, ghost objects), and the same with object→array
-  mixed containers.  Missing: the mutual induction over `Val`/`Fields`/`Vals` (container bodies:
-  `OpenFirst → OpenSecond → '=' → Object`, array elements, the `closeTo` state after a nested
-  close, ghosts in front of the first key of a nested object, which go through the only_empties
-  rewrite).  Until then that clause is decided by the correspondence check (`btexp` cases: the
-  harness compares the real parser with the independent Rust transcription `tape_of(doc)` on every
-  generated document x encoding, the model with the real parser) and by the `example` below. -/
+/-- hypotheses satisfiable, and what `tapeOfBin` looks like:
+`id = { {} {} "a" = { I32 1 rgb{1 2 3} { } }  {} I32 5 = rgb{1 2 3 4} }  {} 11 = { }  100 = { 101 = yes 7 "b" 102 }` -/
+example :
+    let doc : Fields :=
+      .cons 0 (.id 0x2d82) (.obj (.cons 2 (.quoted [97])
+          (.arr (.cons (.sc (.i32 [1, 0, 0, 0])) (.cons (.rgb [1, 0, 0, 0] [2, 0, 0, 0] [3, 0, 0, 0] none) (.cons (.arr .nil) .nil))))
+        (.cons 1 (.i32 [5, 0, 0, 0]) (.rgb [1, 0, 0, 0] [2, 0, 0, 0] [3, 0, 0, 0] (some [4, 0, 0, 0])) .nil)))
+      (.cons 1 (.id 11) (.arr .nil)
+        (.cons 0 (.id 100) (.mixed (.cons 0 (.id 101) (.sc (.bool 1)) .nil) [.i32 [7, 0, 0, 0], .quoted [98], .id 102]) .nil))
+    doc.wfDoc = true ∧
+    tapeOfBin doc = [.token 0x2d82, .object 16, .quoted [97], .array 13, .i32 1, .token 0x243, .array 10, .u32 1, .u32 2, .u32 3,
+      .end_ 6, .array 12, .end_ 11, .end_ 3, .i32 5, .rgb 1 2 3 (some 4), .end_ 1, .token 11, .array 19, .end_ 18,
+      .token 100, .object 28, .token 101, .bool true, .mixed, .i32 7, .quoted [98], .token 102, .end_ 21] := by decide
 
 /-- Faithfulness on flat documents: for every document whose values are all scalars — keys and values
 of any of the ten binary scalar types, any number of ghost `{}` objects in front of every key
@@ -155,6 +174,24 @@ theorem C03_faithful_partial (doc : Fields) (hflat : doc.flat = true) (hw : doc.
   cases opt
   · exact faithful_flat doc hflat hw
   · rw [C03_fast_eq_reference]; exact faithful_flat doc hflat hw
+
+/-- Faithfulness, fragment 1 (nested): keys and values of all ten scalar types, objects and arrays
+nested to any depth, empty containers, rgb blocks as values, ghost `{}` objects in front of any key
+that is not the first key of its object (`Fields.nest1`).  Both parsers return exactly
+`tapeOfBin doc`: containers classified object / array, delimited, ghosts dropped. -/
+theorem C03_faithful_nested_partial (doc : Fields) (hn : doc.nest1 = true) (hw : doc.wfDoc = true) (opt : Bool) :
+    parse opt doc.encode = .ok (tapeOfBin doc) := by
+  cases opt
+  · exact faithful_nest1 doc hn hw
+  · rw [C03_fast_eq_reference]; exact faithful_nest1 doc hn hw
+
+/-- hypotheses satisfiable: `id = { "a" = { I32 1 { } }  {} I32 5 = rgb{1 2 3 4} }  {} 11 = { }` -/
+example :
+    let doc : Fields :=
+      .cons 0 (.id 0x2d82) (.obj (.cons 0 (.quoted [97]) (.arr (.cons (.sc (.i32 [1, 0, 0, 0])) (.cons (.arr .nil) .nil)))
+        (.cons 2 (.i32 [5, 0, 0, 0]) (.rgb [1, 0, 0, 0] [2, 0, 0, 0] [3, 0, 0, 0] (some [4, 0, 0, 0])) .nil)))
+      (.cons 1 (.id 11) (.arr .nil) .nil)
+    doc.nest1 = true ∧ doc.wfDoc = true := by decide
 
 /-- hypotheses satisfiable: `id = I32 5  {} "a" = U64 7` -/
 example : (Fields.cons 0 (.id 0x2d82) (.sc (.i32 [5, 0, 0, 0]))
